@@ -23,6 +23,7 @@ func init() {
 			{"TAB-SHIM", 40, ruleTabShim},
 			{"LAY-ONCE", 30, ruleLayOnce},
 			{"TAB-KEYWORDS", 25, ruleTabKeywords},
+			{"TAB-IOTA", 3, ruleTabIota},
 		},
 	})
 }
@@ -657,4 +658,137 @@ func ruleTabKeywords(c *Ctx, r *R) {
 	if n < 25 {
 		r.undecided("keywords", "-", "go/token keyword range not enumerated")
 	}
+}
+
+// TAB-IOTA: within a parenthesised const group iota is the index of the ConstSpec (the
+// line), not of the constant, and a spec without values repeats the whole expression list of
+// the previous spec, expression i for name i. Decided on constNud: the text substituted for
+// iota is a counter stepped once per spec (not the number of values collected so far), and
+// the remembered previous expressions are a list indexed by the position of the name.
+func ruleTabIota(c *Ctx, r *R) {
+	fd := c.Func("constNud")
+	if fd == nil {
+		r.undecided("constNud", "-", "not found")
+		return
+	}
+	n := 0
+	var bad []string
+	var counters []types.Object
+	ast.Inspect(fd.Body, func(m ast.Node) bool {
+		call, ok := m.(*ast.CallExpr)
+		if !ok || c.CalleeName(call) != "token.Replace" || len(call.Args) != 3 {
+			return true
+		}
+		if v, ok := c.ConstString(call.Args[0]); !ok || v != "iota" {
+			return true
+		}
+		n++
+		arg := unparen(call.Args[2])
+		// follow one definition: n := fmt.Sprint(spec)
+		if id, ok := arg.(*ast.Ident); ok {
+			if def := c.singleDefIn(fd, c.Obj(id)); def != nil {
+				arg = unparen(def)
+			}
+		}
+		src := nosp(c.Src(arg))
+		if strings.Contains(src, "len(") {
+			bad = append(bad, c.Pos(call)+": "+c.Src(call.Args[2]))
+			return true
+		}
+		ast.Inspect(arg, func(k ast.Node) bool {
+			if id, ok := k.(*ast.Ident); ok {
+				if v, ok := c.Obj(id).(*types.Var); ok && !v.IsField() {
+					if b, ok := v.Type().Underlying().(*types.Basic); ok && b.Info()&types.IsInteger != 0 {
+						counters = append(counters, v)
+					}
+				}
+			}
+			return true
+		})
+		return true
+	})
+	if n == 0 {
+		r.undecided("iota", c.Pos(fd), "no Replace(\"iota\", ..) in constNud")
+		return
+	}
+	r.check(len(bad) == 0, "iota counts specs", c.Pos(fd), "iota is not the number of values collected so far",
+		"constNud substitutes the number of constants seen so far for iota ("+strings.Join(bad, "; ")+"): in `A, B = iota, iota*10; C, D` Go gives 0 0 1 10, this gives 0 10 20 30")
+	if len(bad) == 0 {
+		// the counter is stepped once per spec: its increment is not inside a loop over the names/values of one spec
+		stepped := false
+		ast.Inspect(fd.Body, func(m ast.Node) bool {
+			inc, ok := m.(*ast.IncDecStmt)
+			if !ok || inc.Tok != token.INC {
+				return true
+			}
+			id, ok := unparen(inc.X).(*ast.Ident)
+			if !ok {
+				return true
+			}
+			isCounter := false
+			for _, o := range counters {
+				if c.Obj(id) == o {
+					isCounter = true
+				}
+			}
+			if !isCounter {
+				return true
+			}
+			loops := 0
+			for p := c.Parent(inc); p != nil && p != ast.Node(fd.Body); p = c.Parent(p) {
+				switch p.(type) {
+				case *ast.ForStmt, *ast.RangeStmt:
+					loops++
+				}
+			}
+			if loops == 1 {
+				stepped = true
+			}
+			return true
+		})
+		r.check(stepped, "iota steps per spec", c.Pos(fd), "the iota counter is incremented once per ConstSpec", "the counter substituted for iota is not incremented exactly once per ConstSpec of the group (directly in the loop over the specs)")
+	}
+	// the previous spec's expressions are kept as a list
+	list := false
+	ast.Inspect(fd.Body, func(m ast.Node) bool {
+		call, ok := m.(*ast.CallExpr)
+		if !ok || c.CalleeName(call) != "token.Copy" {
+			return true
+		}
+		sel, ok := unparen(call.Fun).(*ast.SelectorExpr)
+		if !ok {
+			return true
+		}
+		if ix, ok := unparen(sel.X).(*ast.IndexExpr); ok {
+			if t, ok := c.TypeOf(ix.X).Underlying().(*types.Slice); ok && c.isTokenPtr(t.Elem()) {
+				if _, isLit := unparen(ix.Index).(*ast.BasicLit); !isLit {
+					list = true
+				}
+			}
+		}
+		return true
+	})
+	r.check(list, "implicit repetition per position", c.Pos(fd), "a spec without values copies expression i of the previous spec for name i",
+		"constNud remembers only the last expression of the previous spec: `Bit0, Name0 = 1<<iota, string('a'+iota); Bit1, Name1` gives Bit1 the Name expression (1 b instead of 2 b)")
+}
+
+// singleDefIn: the right-hand side of the only `x := e` / `x = e` for the object in fd.
+func (c *Ctx) singleDefIn(fd *ast.FuncDecl, o types.Object) ast.Expr {
+	var out ast.Expr
+	n := 0
+	ast.Inspect(fd.Body, func(m ast.Node) bool {
+		if as, ok := m.(*ast.AssignStmt); ok && len(as.Lhs) == len(as.Rhs) {
+			for i, l := range as.Lhs {
+				if id, ok := l.(*ast.Ident); ok && c.Obj(id) == o {
+					n++
+					out = as.Rhs[i]
+				}
+			}
+		}
+		return true
+	})
+	if n != 1 {
+		return nil
+	}
+	return out
 }
